@@ -233,11 +233,20 @@ def run(chk):
     # form-agnostic (if statement or conditional expression): evaluate the slice for grouped / ungrouped
     raw = [it.node if isinstance(it, Cond) else it for it in items]
     # the flag under evaluation is the list of grouping names: its own definition is replaced by the valuation
-    raw = [s_ for s_ in raw if not (isinstance(s_, ast.Assign) and any(norm(t_) == "group_by" for t_ in s_.targets))]
+    # (its name is read off the call `.group_by(*<keys>)`)
+    keys_var = None
+    for s_ in raw:
+        for c in calls_in(s_):
+            if isinstance(c.func, ast.Attribute) and c.func.attr == "group_by" and c.args and isinstance(c.args[0], ast.Starred) and isinstance(c.args[0].value, ast.Name):
+                keys_var = c.args[0].value.id
+    if keys_var is None:
+        raise AnalysisError("C04/R4: no `.group_by(*<keys>)` call in the Polars Summarize slice")
+    keys_def = [s_ for s_ in raw if isinstance(s_, ast.Assign) and any(norm(t_) == keys_var for t_ in s_.targets)]
+    raw = [s_ for s_ in raw if s_ not in keys_def]
     ok = True
     seen_any = False
     for grouped in (True, False):
-        ev = Evaluator({"group_by": [Sym("g")] if grouped else []})
+        ev = Evaluator({keys_var: [Sym("g")] if grouped else []})
         ev.skip_loops = True
         ev.lenient = True
         try:
@@ -255,8 +264,9 @@ def run(chk):
     ok = ok and seen_any
     chk.ob("R4", pol, pcfg.func, "polars Summarize: group_by(*group_by).agg(..) if grouped else select(..)", ok,
            "Polars summarize no longer aggregates per group / to a single row without grouping")  # fmt: skip
-    src = " ".join(norm(st) for st, _ in flat(items))
-    chk.ob("R4", pol, pcfg.func, "polars Summarize groups by the grouping state", "group_by = [name_in_df[uid] for uid in partition_by]" in src,
+    # the keys are the physical names of the grouping columns: a comprehension over partition_by through name_in_df
+    keys_ok = len(keys_def) == 1 and isinstance(keys_def[0].value, (ast.ListComp, ast.GeneratorExp)) and norm(keys_def[0].value.generators[0].iter) == "partition_by" and norm(keys_def[0].value.elt).startswith("name_in_df[")
+    chk.ob("R4", pol, pcfg.func, "polars Summarize groups by the grouping state", keys_ok,
            "the Polars group keys are not the table's grouping columns")  # fmt: skip
 
     # ---- R5 sql
